@@ -356,18 +356,24 @@ def main_check(mod, tier, base_seed, workers=None, max_jobs=None):
         r = runs[0]
         v = [x for x in r["violations"] if vsig(x) == sig][0]
         streams = r.get("streams", {})
+        # a run may hand back a job extended with its recorded environment
+        # (foreign peer with real randomness): that is what gets replayed
+        rjob = r.get("replay_job") or r["job"]
         if r.get("timeout"):
+            mstreams, evals, ok = streams, 0, False
+        elif r.get("replay_job"):
+            # the recording fixes the whole execution: nothing to shrink
             mstreams, evals, ok = streams, 0, False
         else:
             mstreams, evals, ok = shrink(
-                mod, r["job"], streams, sig,
+                mod, rjob, streams, sig,
                 budget_s=per_shrink)
-        path = write_replay(prop, r["job"], mstreams, v, ok, evals)
+        path = write_replay(prop, rjob, mstreams, v, ok, evals)
         okc, outp = (False, "") if r.get("timeout") else \
             confirm_in_fresh_process(prop, path)
         if not okc and not r.get("timeout"):
             # fall back to the un-minimised streams
-            path = write_replay(prop, r["job"], streams, v, False, evals)
+            path = write_replay(prop, rjob, streams, v, False, evals)
             okc, outp = confirm_in_fresh_process(prop, path)
         if not okc and not r.get("timeout"):
             harness_errors.append("violation %s did not reproduce in a fresh "
